@@ -4,6 +4,8 @@
    length and every draw; the run is one between (re)initialisation and stop (pending answers of
    a stopped interface are dropped: C08/C10). *)
 From CR Require Import Model.Sched Proofs.Sched Base.IP.
+(* the code computes instants and durations on one clock (extracted): one_clock in Properties/Clock.v *)
+From CR Require Properties.Clock.
 From Coq Require Import Lia.
 (* the plugin lock can never hang an RA build / scrape / API request: C17_lock_discipline (extracted),
    C17_lock_no_deadlock, C17_lock_terminates, C17_lock_reentrant_deadlock are stated in Properties/C17lock.v *)
